@@ -213,6 +213,8 @@ def match_finding(rec, findings, prop):
                 ok = any(x in rec.get("ops", []) for x in v)
             elif k == "ops_none":
                 ok = not any(x in rec.get("ops", []) for x in v)
+            elif k.endswith("_min"):
+                ok = isinstance(rec.get(k[:-4]), (int, float)) and rec.get(k[:-4]) >= v
             elif k.endswith("_re"):
                 ok = re.search(v, str(rec.get(k[:-3], ""))) is not None
             elif isinstance(v, list):
@@ -267,3 +269,54 @@ def finish(prop, records, findings, replay_writer):
                 break
         return 1, len(unknown), known
     return 0, 0, known
+
+
+# ------------------------------------------------------------------------------------------
+# generic check: a property is served by one or more families (campaigns)
+# ------------------------------------------------------------------------------------------
+def run_check(prop, tier, seed, fams, technique_note=""):
+    """fams: list of family modules. Each provides
+         campaign(tier, seed) -> dict(records=[...], states, transitions, traces, samples, detail)
+         props_of(rec) -> set of property ids
+         write_replay(rec, tier, path) -> writes a replay file for the record's case"""
+    t0 = time.time()
+    recs = []
+    cov = {"states": 0, "transitions": 0, "traces_validated_against_impl": 0, "samples": [],
+           "families": {}}
+    for fam in fams:
+        res = fam.campaign(tier, seed)
+        mine = [dict(r, fam=fam.NAME) for r in res["records"] if prop in fam.props_of(r)]
+        recs += mine
+        cov["states"] += res["states"]
+        cov["transitions"] += res["transitions"]
+        cov["traces_validated_against_impl"] += res["traces"]
+        cov["samples"] += res["samples"][:2]
+        cov["families"][fam.NAME] = dict(res.get("detail", {}), campaign_wall_s=res.get("wall_s"),
+                                         records_for_property=len(mine),
+                                         relevant_cases=res.get("relevant", {}).get(prop))
+    by_name = {f.NAME: f for f in fams}
+
+    def write_replay(r):
+        d = os.path.join(WORK, "replay")
+        os.makedirs(d, exist_ok=True)
+        p = os.path.join(d, "%s-%s-%s.json" % (prop, r["fam"], r.get("tr")))
+        by_name[r["fam"]].write_replay(r, tier, p)
+        return p
+
+    findings = load_findings()
+    rc, n_unknown, known = finish(prop, recs, findings, write_replay)
+    cov["records_for_property"] = len(recs)
+    cov["known_finding_hits"] = {k: v[1] for k, v in known.items()}
+    cov["unlisted_records"] = n_unknown
+    cov["rule"] = ("TLC enumerates the case space of each family within the stated bounds (exhaustive) plus "
+                   "seeded random cases where stated; every case is executed on the real wirm API and the "
+                   "recorded execution is judged by the Ideal trace specification")
+    cov["exhaustive"] = True
+    write_evidence(prop, tier, seed, cov,
+                   ["wasmparser decoder/validator, wasm-encoder and wat (input construction), the projection "
+                    "alpha of the harness and TLC are trusted",
+                    "bounds are small; see coverage.families.*",
+                    "a public call that panics is a rejected call (DESIGN.md B.4)"] +
+                   ([technique_note] if technique_note else []),
+                   time.time() - t0, n_unknown)
+    return rc
